@@ -624,3 +624,107 @@ func cdcContains(v reflect.Value, t reflect.Type, pred func(reflect.Value) bool)
 	})
 	return found
 }
+
+// cdcLayoutHook: layout rule for the fuzz-protocol frame (typegen cannot import fuzz).
+func cdcLayoutHook(w *typegen.Writer, v reflect.Value, path string) bool {
+	if v.Type() != reflect.TypeOf(Message{}) {
+		return false
+	}
+	m := v.Interface().(Message)
+	var arm reflect.Value
+	for _, a := range cdcMsgArms {
+		if a.Type == m.Type {
+			arm = v.FieldByName(a.Field)
+		}
+	}
+	if !arm.IsValid() || arm.IsNil() {
+		panic("message arm missing")
+	}
+	sub := &typegen.Writer{Seg: w.Seg, Hook: cdcLayoutHook}
+	sub.Value(arm.Elem(), path+".payload")
+	base := w.Buf.Len()
+	w.Marks = append(w.Marks, typegen.Mark{Off: base, Len: 4, Kind: typegen.MarkFrame, Path: path + ".length", Val: uint64(sub.Buf.Len() + 1)})
+	w.Fixed(uint64(sub.Buf.Len()+1), 4)
+	w.Tag(path+".Type", byte(m.Type), 0, []byte{0, 1, 2, 3, 4, 5, 255})
+	off := w.Buf.Len()
+	w.Raw(sub.Buf.Bytes())
+	for _, mk := range sub.Marks {
+		mk.Off += off
+		w.Marks = append(w.Marks, mk)
+	}
+	return true
+}
+
+
+// cdcRefHook: strict reference parse of the fuzz-protocol frame.
+func cdcRefHook(r *typegen.Reader, t reflect.Type, path string) bool {
+	if t != reflect.TypeOf(Message{}) {
+		return false
+	}
+	start := r.Pos
+	hdr := r.Take(4, path+".length")
+	l := int(binary.LittleEndian.Uint32(hdr))
+	if l < 1 {
+		panic(fmt.Sprintf("frame length %d", l)) // converted below
+	}
+	tag := r.Take(1, path+".Type")[0]
+	var arm reflect.Type
+	mt := reflect.TypeOf(Message{})
+	for _, a := range cdcMsgArms {
+		if byte(a.Type) == tag {
+			f, _ := mt.FieldByName(a.Field)
+			arm = f.Type.Elem()
+		}
+	}
+	if arm == nil {
+		r.Pos = start + 4
+		r.Need(1<<30, path+".Type#invalid-tag") // reported as a reject below
+	}
+	r.Need(l-1, path+".payload")
+	sub := &typegen.Reader{Data: r.Data[r.Pos : r.Pos+l-1], Seg: r.Seg, Hook: cdcRefHook}
+	subN, rej := 0, (*typegen.Reject)(nil)
+	func() {
+		subN, rej = typegen.RefDecode(arm, sub.Data, r.Seg, cdcRefHook)
+	}()
+	if rej != nil {
+		rej.Off += r.Pos
+		rej.Path = path + ".payload" + rej.Path
+		panic(cdcRejectCarrier{rej})
+	}
+	if subN != l-1 {
+		panic(cdcRejectCarrier{&typegen.Reject{Reason: typegen.RTrailing, Off: r.Pos + subN, Path: path + ".payload", Detail: fmt.Sprintf("%d bytes of the frame left over", l-1-subN)}})
+	}
+	r.Pos += l - 1
+	return true
+}
+
+type cdcRejectCarrier struct{ r *typegen.Reject }
+
+// cdcRefDecode wraps typegen.RefDecode: frame-level rejects travel as a panic
+// through the generic reader; UnmarshalBinary entry points must use the whole input.
+func cdcRefDecode(cdc *cdcCodec, data []byte, seg types.HashSegmentMap, lax string) (n int, rej *typegen.Reject) {
+	defer func() {
+		if p := recover(); p != nil {
+			switch x := p.(type) {
+			case cdcRejectCarrier:
+				n, rej = x.r.Off, x.r
+			default:
+				n, rej = 0, &typegen.Reject{Reason: "frame", Detail: fmt.Sprint(p)}
+			}
+		}
+	}()
+	n, rej = typegen.RefDecodeLax(cdc.Type, data, seg, cdcRefHook, lax)
+	if rej != nil && strings.HasSuffix(rej.Path, "#invalid-tag") {
+		rej.Reason = typegen.RTagRange
+	}
+	if rej == nil && cdc.wholeInput() && n != len(data) {
+		rej = &typegen.Reject{Reason: typegen.RTrailing, Off: n, Detail: fmt.Sprintf("%d trailing bytes", len(data)-n)}
+	}
+	return
+}
+
+// wholeInput: entry points without a consumed count must be given exactly one value.
+func (c *cdcCodec) wholeInput() bool {
+	return strings.HasPrefix(c.Name, "fuzz.") && c.Name != "fuzz.SetState#codec" && c.Name != "fuzz.Version" && c.Name != "fuzz.Message"
+}
+
